@@ -24,9 +24,12 @@
 //
 //	plan    connections × pipelined requests × trigger (idle | parsed | started | done) × late requests × ctx
 //	toctou  D16: a connection idle for > 2 s (stale idle stamp), a request whose receiver is held in
-//	        ParsePackage, Shutdown: CloseIdles sees numInvoke == 0 and closes. With the verif hook of
-//	        pending/C12-hook.patch the receiver is released at the yield point between the load of
-//	        numInvoke and Close() (the exact D16 interleaving); without it, after the close.
+//	        ParsePackage, Shutdown: CloseIdles sees numInvoke == 0 and a stale stamp. Before the repair it
+//	        closed the connection (request lost); since pending/C12-d16-closeidles-wake.patch it only
+//	        wakes the receiver. With the verif hook (verifServerYield in CloseIdles, between the check
+//	        and the close / wake) the receiver is released at the yield point, so that the request is
+//	        in its handler when CloseIdles acts (the exact D16 interleaving); without the hook it is
+//	        released once the connection is closed or Shutdown has given up.
 package main
 
 import (
@@ -1012,7 +1015,7 @@ func main() {
 		modelAns[lineOf[j]] = a
 	}
 
-	hookSeen := false
+	hookSeen, toctouRan := false, false
 	for i, d := range results {
 		sc, out := d.sc, d.out
 		class := fmt.Sprintf("%s pool=%s trigger=%s", sc.Kind, poolClass(sc.Pool), sc.Trigger)
@@ -1022,6 +1025,7 @@ func main() {
 			continue
 		}
 		hookSeen = hookSeen || out.hookSeen
+		toctouRan = toctouRan || sc.Kind == "toctou"
 		res.Count(sc.key(), class, len(out.evs) > 8)
 		fs := judge(sc, out, k)
 		rep := report{Scenario: sc, History: history(out.evs), Timeline: timeline(out.evs), Model: modelAns[i],
@@ -1057,9 +1061,9 @@ func main() {
 		}
 	}
 	if hookSeen {
-		res.Note("verif hook in CloseIdles present: the D16 scenario forces load-of-numInvoke / dispatch / Close()")
-	} else {
-		res.Note("verif hook in CloseIdles absent (pending/C12-hook.patch not applied): the D16 scenario holds the receiver in ParsePackage until CloseIdles has closed the connection")
+		res.Note("verif hook in CloseIdles present: the D16 scenario releases the held receiver between CloseIdles' idle check and its close / wake-up")
+	} else if toctouRan {
+		res.Note("verif hook in CloseIdles not seen: the D16 scenario holds the receiver in ParsePackage until the connection is closed or Shutdown has given up")
 	}
 	if err := res.Write(o.Out); err != nil {
 		fmt.Fprintln(os.Stderr, err)
